@@ -187,6 +187,17 @@ def run(ctx):
             for k1 in range(2, 13 if not th else 20):
                 for k2 in range(1, 13 if not th else 20):
                     htasks.append(dict(N=N, box="B1" if N == 1 else "B2", a=a, b=b, k1=k1, k2=k2, nloc=30))
+                    # short explicit local budgets (the simplex has not collapsed when the budget ends)
+                    if th or (k1 in (2, 5, 9) and k2 in (1, 4, 8)):
+                        for nloc in (1, 2, 3, 5):
+                            htasks.append(dict(N=N, box="B1" if N == 1 else "D", a=a, b=b, k1=k1, k2=k2, nloc=nloc))
+    if th:
+        for (a, b) in ((0.12, 0.83), (0.4, 0.9), ("edge", 0.6)):
+            for k1 in (3, 8, 15, 30):
+                for k2 in (1, 6, 20):
+                    for nloc in (1, 3, 30):
+                        for bx in ("B2", "D", "S"):
+                            htasks.append(dict(N=3, box=bx, a=a, b=b, k1=k1, k2=k2, nloc=nloc))
     for t, msgs in zip(htasks, pmap(refine_history, htasks, chunksize=8)):
         for m in msgs:
             res.add_violation(dict(driver="refine_history", **t, message=m, sig={}))
